@@ -531,6 +531,23 @@ def run(chk):
         raise core.AnalysisBroken("no call of update_record_buffer found in Parser.cpp")
 
     # ---- C20.signidx: a signed index that is counted down never reaches an unsigned use while it may be negative
+    # the membership test behind the recursion guard
+    isc = [f for f in fx.fns if f["q"].endswith("InputStack::contains") and f.get("body")]
+    if len(isc) != 1:
+        raise core.AnalysisBroken("InputStack::contains: %d definitions" % len(isc))
+    isc = isc[0]
+    cst = stmt_list(isc["body"])
+    okc_ = False
+    detc_ = [show(x)[:200] for x in cst]
+    if len(cst) == 1 and cst[0]["k"] == "Return":
+        c_ = strip(cst[0]["e"])
+        lam_ = [strip(a_) for a_ in (c_.get("a") or []) if strip(a_).get("k") == "Lambda"]
+        okc_ = c_.get("k") == "Call" and (c_.get("fn") or "").endswith("std::any_of") and len(c_.get("a") or []) == 3 and re.fullmatch(r"this\.c\.begin\(\)", show(strip(c_["a"][0]))) is not None \
+            and re.fullmatch(r"this\.c\.end\(\)", show(strip(c_["a"][1]))) is not None and len(lam_) == 1 and any((x.get("fn") or "").endswith("filesystem::equivalent") for x in walk(lam_[0]["body"]) if x.get("k") == "Call")
+    chk.instance(r_in, "contains", sample=dict(body=detc_))
+    if not okc_:
+        chk.violation(r_in, "contains", "InputStack::contains(p) must answer whether ANY entry of the whole stack is the same file as p (std::any_of over c.begin()..c.end() with filesystem::equivalent); found %s - an INCLUDE cycle through two or more files would no longer be refused, and parsing never ends" % detc_, isc["file"], isc["l"])
+
     r_sg = chk.rule("C20.signidx", "a signed local that its function counts down (--v, v -= k, a search loop `for (; v >= 0; --v)`) is never converted to an unsigned type or used as a subscript at a point where it may be negative: sign analysis over the structured control flow (if/else chains refine on v < 0 / v >= 0, a branch that throws or returns does not flow on, after a count-down loop the variable may be -1)", floor=8)
     from verif import signidx
     for f in fx.fns:
